@@ -377,9 +377,17 @@ def run(repo, rep):
     n_cl = 0
     for q, fn in go.functions.items():
         clones = {}
+        srcs = {"ifm", "ifm2", "op.ifm", "op.ifm2"}
+        # a local that selects one of the operands (`full_ifm = ifm if .. else ifm2`) is an operand
+        for st in ast.walk(fn):
+            if isinstance(st, ast.Assign) and len(st.targets) == 1 and isinstance(st.targets[0], ast.Name):
+                v_ = st.value
+                leaves = [v_.body, v_.orelse] if isinstance(v_, ast.IfExp) else [v_]
+                if all(str(norm(l_)) in ("ifm", "ifm2", "op.ifm", "op.ifm2") for l_ in leaves):
+                    srcs.add(st.targets[0].id)
         for st in ast.walk(fn):
             if isinstance(st, ast.Assign) and isinstance(st.value, ast.Call) and isinstance(st.value.func, ast.Attribute) and st.value.func.attr == "clone" and isinstance(st.targets[0], ast.Name) \
-                    and norm(st.value.func.value) in ("ifm", "ifm2", "op.ifm", "op.ifm2"):
+                    and norm(st.value.func.value) in srcs:
                 clones[st.targets[0].id] = st.value
         for c in ast.walk(fn):
             if isinstance(c, ast.Call) and isinstance(c.func, ast.Attribute) and c.func.attr == "set_output_tensor" and c.args and isinstance(c.args[0], ast.Name) and c.args[0].id in clones:
